@@ -83,11 +83,12 @@ func (tr *Tr) initComps() {
 		tr.declComp(heapComp(k), ArrS(S64, ArrS(S64, heapElemSort(k))))
 	}
 	tr.declComp("alloc", S64)
-	tr.declComp("ev.len", SInt)
-	for _, n := range []string{"ev.kind", "ev.dev", "ev.off", "ev.n", "ev.boff", "ev.epoch"} {
-		tr.declComp(n, ArrS(SInt, S64))
+	tr.declComp("ev.len", GhostIdxSort())
+	tr.declComp("wcount", ArrS(S64, S64))
+	for _, n := range []string{"ev.kind", "ev.dev", "ev.off", "ev.n", "ev.boff", "ev.epoch", "ev.res", "ev.err"} {
+		tr.declComp(n, ArrS(GhostIdxSort(), S64))
 	}
-	tr.declComp("ev.buf", ArrS(SInt, ArrS(S64, S8)))
+	tr.declComp("ev.buf", ArrS(GhostIdxSort(), ArrS(S64, S8)))
 	tr.declComp("epoch", S64)
 }
 
@@ -129,7 +130,8 @@ func (tr *Tr) storeLeaves(st *State, ls []leaf, reg, off *Term, v Val) {
 	}
 }
 
-// fresh region from the allocation counter; all inner arrays zero.
+// fresh region from the allocation counter. Regions at or above the counter have never been written, so they read
+// as zero in every heap ("unallocated memory is zero" — an invariant of every state, instantiated here for the new region).
 func (tr *Tr) allocRegion(st *State) *Term {
 	a := tr.get(st, "alloc")
 	tr.nonNil[a.id] = true
@@ -142,7 +144,11 @@ func (tr *Tr) allocRegion(st *State) *Term {
 		} else {
 			z = tr.f.BVi(es.W, 0)
 		}
-		tr.setInner(st, k, a, tr.f.ConstArr(ArrS(S64, es), z))
+		cur := tr.inner(st, k, a)
+		za := tr.f.ConstArr(ArrS(S64, es), z)
+		if cur != za {
+			tr.assume(tr.f.Eq(cur, za), "unallocated memory is zero")
+		}
 	}
 	return a
 }
